@@ -41,7 +41,7 @@ class CtxObj:
             else:
                 cctx.response_annotations = {key: tok.encode()}
 
-    def ret(self, tok, key, mutate, work=0):
+    def ret(self, tok, key, mutate, work=0, pad=""):
         if work:
             self._s.sleep(work / 2.0)      # a method that takes (virtual) time: other threads run meanwhile
         self._do(tok, key, mutate)
@@ -49,7 +49,7 @@ class CtxObj:
             self._s.sleep(work / 2.0)
         return tok
 
-    def boom(self, tok, key, mutate, work=0):
+    def boom(self, tok, key, mutate, work=0, pad=""):
         if work:
             self._s.sleep(work / 2.0)
         self._do(tok, key, mutate)
@@ -58,7 +58,7 @@ class CtxObj:
         raise ValueError(tok)
 
     @api.oneway
-    def ow(self, tok, key, mutate, delay=0):
+    def ow(self, tok, key, mutate, delay=0, pad=""):
         # a one-way method may still be running (and set its annotation) while its serving thread handles later requests
         if delay:
             self._s.sleep(delay)
@@ -95,7 +95,7 @@ class CtxWorld(World):
     STUB = ["sockets/selector (in-memory) with recording middlebox", "threads (baton scheduler, line pre-emption in handleRequest)",
             "time (virtual clock)", "uuid4 (seeded)"]
     PROBES = ["raise_after_set", "oneway_mutate", "worker_reuse", "handshake_after_raise", "batch", "ping", "prop",
-              "assign_idiom", "mutate_idiom", "multiplex", "thread", "preempted", "pool_full_retry", "oneway_delayed", "reply_reset_then_reconnect", "bad_handshake"]
+              "assign_idiom", "mutate_idiom", "multiplex", "thread", "preempted", "pool_full_retry", "oneway_delayed", "reply_reset_then_reconnect", "bad_handshake", "peer_address_unavailable", "reset_after_oneway_request"]
     RULE = ("plan = (server type, pool size 1-2, serializer, 2-3 clients x 1-2 sessions x 1-5 calls of kinds "
             "ret/boom/ow/plain/batch/prop/ping, each with a unique annotation key set by assignment or mutation, "
             "pre-emption probabilities); distinct = distinct interleaving digest; non-trivial = at least two clients' "
@@ -119,7 +119,9 @@ class CtxWorld(World):
             k = rng.choice(["ret", "ret", "boom", "boom", "ow", "plain", "batch", "prop", "ping"])
             return {"kind": k, "key": "K%03d" % kn[0], "mutate": rng.random() < 0.5, "pause": rng.choice([0, 0, 0.01]),
                     "ow_delay": rng.choice([0, 0, 0.005, 0.02]), "work": rng.choice([0, 0, 0.01, 0.04]),
-                    "reset_reply": k in ("ret", "boom", "plain") and rng.random() < 0.12}
+                    "reset_reply": k in ("ret", "boom", "plain") and rng.random() < 0.12,
+                    "reset_after_request": k == "ow" and rng.random() < 0.25,
+                    "pad": rng.choice([0, 0, 300, 700, 5000])}
 
         clients = []
         for _ in range(nclients):
@@ -154,6 +156,17 @@ class CtxWorld(World):
         def c2s(pipe, k, info, raw):
             if info["type"] == N.MSG_INVOKE and "RSET" in info["ann"]:
                 doomed.add((pipe.conn, info["seq"]))
+            if info["type"] == N.MSG_INVOKE and "RSTQ" in info["ann"]:
+                # the request is delivered, then the client's side resets the connection: the server can still read the
+                # queued request bytes (Linux), but the socket is not connected any more (getpeername fails)
+                pipe.deliver(raw)
+                c, s_ = net.conns[pipe.conn]
+                for x in (c, s_):
+                    x.reset = True
+                    if x.out is not None:
+                        x.out.dead = True
+                ctx.fault("reset_after_request")
+                return None
             return True
 
         def s2c(pipe, k, info, raw):
@@ -236,9 +249,31 @@ class CtxWorld(World):
                 for j, c in enumerate(sess):
                     tok = "c%ds%dj%d" % (ci, si, j)
                     kind = c["kind"]
+                    if p._pyroConnection is None:
+                        # the previous call's connection was dropped on purpose: connect again first (so that the request below
+                        # is attributed to the new connection)
+                        ok = False
+                        for attempt in range(400):
+                            try:
+                                cctx.annotations = {}
+                                cctx.correlation_id = None
+                                p._pyroBind()
+                                ok = True
+                                break
+                            except E.CommunicationError as x:
+                                if "free workers" in str(x):
+                                    ctx.probe("pool_full_retry")
+                                sched.sleep(0.05)
+                        if not ok:
+                            return
+                        conn = p._pyroConnection.sock.conn
+                        handshakes.append((conn, {k: bytes(v) for k, v in cctx.response_annotations.items()}))
                     cctx.annotations = {"REQA": tok.encode()}
                     if c.get("reset_reply"):
                         cctx.annotations["RSET"] = b"1"
+                    if c.get("reset_after_request") and kind == "ow":
+                        cctx.annotations["RSTQ"] = b"1"
+                    pad = "p" * c.get("pad", 0)
                     cctx.correlation_id = new_corr() if cspec["corr"] else None
                     rec = {"kind": kind, "key": c["key"], "mutate": c["mutate"], "conn": conn, "corr": cctx.correlation_id,
                            "laddr": p._pyroLocalSocket}
@@ -256,9 +291,13 @@ class CtxWorld(World):
                             b.plain(tok)
                             list(b())
                         elif kind == "ow":
-                            p.ow(tok, c["key"], c["mutate"], c.get("ow_delay", 0))
+                            p.ow(tok, c["key"], c["mutate"], c.get("ow_delay", 0), pad)
+                            if c.get("reset_after_request"):
+                                # the connection is gone without the client having noticed yet: drop it, next call reconnects
+                                ctx.probe("reset_after_oneway_request")
+                                p._pyroRelease()
                         else:
-                            getattr(p, kind)(tok, c["key"], c["mutate"], c.get("work", 0))
+                            getattr(p, kind)(tok, c["key"], c["mutate"], c.get("work", 0), pad)
                     except ValueError:
                         outcome = "raised"
                     except E.CommunicationError as x:
@@ -357,8 +396,11 @@ class CtxWorld(World):
                     bad.append("serializer %r (request had %r)" % (sn["ser"], req["ser"]))
                 if sn["conn"] != rec["conn"]:
                     bad.append("connection %r (request came on %r)" % (sn["conn"], rec["conn"]))
-                if tuple(sn["addr"] or ()) != tuple(rec["laddr"] or ()):
+                if sn["addr"] is not None and tuple(sn["addr"]) != tuple(rec["laddr"] or ()):
+                    # (None is allowed: the daemon documents that getpeername() can fail, e.g. after a reset)
                     bad.append("peer address %r (client is %r)" % (sn["addr"], rec["laddr"]))
+                if sn["addr"] is None:
+                    ctx.probe("peer_address_unavailable")
                 if rec["corr"] is not None and sn["corr"] != rec["corr"]:
                     bad.append("correlation id %r (client sent %r)" % (sn["corr"], rec["corr"]))
                 if bad:
